@@ -155,6 +155,7 @@ def build_diffs(ob, interp, out_shape, outs):
     lk, rk = _kinds(out_shape[0]), _kinds(out_shape[1])
     paths = [jax.tree_util.keystr(p) for p, _ in jax.tree_util.tree_flatten_with_path(out_shape[0])[0]]
     diffs = []
+    interp.symbolic_leaves = 0
     for i, (a, b) in enumerate(zip(lhs, rhs)):
         if a.shape != b.shape:
             try:
@@ -167,6 +168,8 @@ def build_diffs(ob, interp, out_shape, outs):
             if kind == "f" and lk[i] != rk[i]:
                 x = _to_f(interp.ops, x, lk[i])
                 y = _to_f(interp.ops, y, rk[i])
+            if J.is_sym(J.lower(x)) or J.is_sym(J.lower(y)) or isinstance(x, J.SpecialIte) or isinstance(y, J.SpecialIte):
+                interp.symbolic_leaves += 1
             s = same(interp.ops, x, y, kind, ob.tol)
             if J.is_sym(s):
                 s2 = z3.simplify(s)
@@ -440,7 +443,7 @@ def decide(ob: Ob, pid: str, known: list) -> Result:
             res.cex = {"structural": err}
             break
         res.leaves = len(diffs)
-        res.nontrivial = len([d for d in diffs if not z3.is_true(d[1])])
+        res.nontrivial = getattr(interp, "symbolic_leaves", len(diffs))
         for u in interp.unwinding:
             diffs.append(("unwinding-assertion", u))
         if not diffs:
